@@ -1,5 +1,6 @@
 import Proofs.StdNoPanicLemmas
 import Proofs.ArrNoPanic
+import Proofs.JsonLemmas
 /-!
 # The standard value layer never panics (the hypothesis of `run_noPanic`, discharged)
 
@@ -11,7 +12,7 @@ The `.panic` sites of the model and why none is reachable:
 
 * `Compare.lean` (17 sites: the `reflect` accessors and Go's `==` on uncomparable types) — by the
   theorems of `Proofs/CompareLemmas.lean` / `C09.lean` (`rel_no_panic`, `Cmp.equal_noPanic`);
-* `Num.badArgs`, `ArrF.badArgs` (a body applied to arguments of the wrong Go type) — `values.Call` converts every
+* `Num.badArgs`, `ArrF.badArgs`, `JsonF.badArgs` (a body applied to arguments of the wrong Go type) — `values.Call` converts every
   argument to the parameter type of the registered signature first (`convertArgs_ok`), and each
   body's pattern is exactly its signature (`ImplsNoPanic`: a body is only required to be panic-free
   on arguments that are well typed for the signature registered under its name);
@@ -66,9 +67,18 @@ theorem strImpls_noPanic : ImplsNoPanic StrGlue.impls := by
 example : ArgsOK [.val .f64, .fn .int] [.val (.flt .f64 1), .fn (some (convert (.str [50]) .int))] :=
   .cons ⟨1, rfl⟩ (.cons ⟨convert_noPanic _ _, fun _ h => convert_hasTy h⟩ .nil)
 
+/-- `json`, `inspect`, `type`: the model of `json.Marshal` and of `%T` has no panic site at all
+    (`Proofs/JsonLemmas.lean`); the bodies match exactly the one `any` argument of their signature -/
+theorem jsonImpls_noPanic : ImplsNoPanic JsonF.impls := by
+  unfold JsonF.impls
+  refine .cons (implNP_of_sig (ps := [.val .any]) (by decide +kernel) JsonF.json_noPanic) ?_
+  refine .cons (implNP_of_sig (ps := [.val .any]) (by decide +kernel) JsonF.inspect_noPanic) ?_
+  refine .cons (implNP_of_sig (ps := [.val .any]) (by decide +kernel) JsonF.typeF_noPanic) ?_
+  exact .nil
+
 /-- the whole table of `Liquid/Std.lean` -/
 theorem stdFilterImpls_noPanic : ImplsNoPanic stdFilterImpls :=
-  (numImpls_noPanic.append strImpls_noPanic).append arrImpls_noPanic
+  ((numImpls_noPanic.append strImpls_noPanic).append arrImpls_noPanic).append jsonImpls_noPanic
 
 -- the table is not vacuous: these calls reach a body (`"1.5" | round: 1`, `5 | upcase`, `(1..3) | join: 0`)
 example : (applyFilter (lookupImpl stdFilterImpls) (Num.bn "round") (.str [49, 46, 53]) [.int .int 1]).isOk = true := by
@@ -76,6 +86,16 @@ example : (applyFilter (lookupImpl stdFilterImpls) (Num.bn "round") (.str [49, 4
 example : (applyFilter (lookupImpl stdFilterImpls) (Num.bn "upcase") (.int .int 5) []).isOk = true := by
   decide +kernel
 example : (applyFilter (lookupImpl stdFilterImpls) (Num.bn "join") (.range 1 3) [.int .int 0]).isOk = true := by
+  decide +kernel
+-- `m | json` for a `map[string]any{"b": [1, nil, "<"]}` is `{"b":[1,null,"\u003c"]}`; `3 | type` is `int`
+example : (match applyFilter (lookupImpl stdFilterImpls) (Num.bn "json")
+      (.map .str .any [(.str [98], .slice .any [.int .int 1, .nil, .str [60]])]) [] with
+    | .ok (.str s) => s == [123, 34, 98, 34, 58, 91, 49, 44, 110, 117, 108, 108, 44, 34, 92, 117, 48, 48, 51, 99, 34, 93, 125]
+    | _ => false) = true := by
+  decide +kernel
+example : (match applyFilter (lookupImpl stdFilterImpls) (Num.bn "type") (.int .int 3) [] with
+    | .ok (.str s) => s == [105, 110, 116]
+    | _ => false) = true := by
   decide +kernel
 
 /-! ## Assembly -/
